@@ -172,7 +172,7 @@ Qed.
 
 Lemma conc_reap_good : forall k c r, good2 c r -> good2 c (conc_reap k c r).
 Proof.
-  intros k c [[sc tr] [[v|x|]|]] H; destruct k; simpl in *; auto; apply done_fin.
+  intros k c [[sc tr] [[v|x| |v|v]|]] H; destruct k; simpl in *; auto; apply done_fin.
 Qed.
 
 Lemma finish_conc_good : forall k a b ns sa sb tr fin leak,
@@ -196,22 +196,19 @@ Proof.
   intros s [[sc tr] r] rest. induction rest as [|x rest IH]; intros i G; simpl.
   - intros k. exact I.
   - destruct x; [intros k; exact I|].
-    destruct r as [[v|x|]|]; simpl in G.
-    + specialize (IH (S i) G). destruct (rep_loop s (sc, tr, Some (OVal v)) rest (S i)) as [i' [[sc' tr'] r']].
-      exact IH.
-    + intros k. simpl. exact G.
-    + intros k. simpl. exact G.
-    + exact G.
+    destruct r as [[v|x| |v|v]|]; simpl in G; try (intros k; simpl; exact G); try exact G.
+    specialize (IH (S i) G). destruct (rep_loop s (sc, tr, Some (OVal v)) rest (S i)) as [i' [[sc' tr'] r']].
+    exact IH.
 Qed.
 
 Lemma rep_done_good : forall l s ns sc tr o r0,
   done_st s sc -> good2 s r0 -> good2 (Un (URepeat l) s) (rep_done l s ns sc tr o r0).
 Proof.
   intros l s ns sc tr o r0 D G. unfold rep_done.
-  destruct o; try (simpl; exact D).
-  pose proof (rep_loop_good s r0 (skipn (n_iter ns) l) (n_iter ns) G) as R.
-  destruct (rep_loop s r0 (skipn (n_iter ns) l) (n_iter ns)) as [i' [[sc' tr'] r']].
-  destruct r' as [o'|]; [exact (R _)|exact R].
+  destruct o; try (simpl; exact D);
+  pose proof (rep_loop_good s r0 (skipn (n_iter ns) l) (n_iter ns) G) as R;
+  destruct (rep_loop s r0 (skipn (n_iter ns) l) (n_iter ns)) as [i' [[sc' tr'] r']];
+  (destruct r' as [o'|]; [exact (R _)|exact R]).
 Qed.
 
 (* retry_when *)
@@ -231,17 +228,14 @@ Lemma retry_err_good : forall a b r0a r0bl rem i rbe e,
 Proof.
   intros a b [[sa tra] ra] r0bl rem. induction rem as [|rem IH]; intros i [[sb trb] rb] e Ga Gl Gb; simpl.
   - left. reflexivity.
-  - destruct rb as [[v|x|]|]; simpl in Gb.
-    + destruct ra as [[v'|x'|]|]; simpl in Ga.
-      * right. eexists; split; [reflexivity|exact Ga].
+  - destruct rb as [[v|x| |v|v]|]; simpl in Gb; try (left; reflexivity).
+    + destruct ra as [[v'|x'| |v'|v']|]; simpl in Ga;
+        try (right; eexists; split; [reflexivity|exact Ga]).
       * assert (good2 b r0bl) as Gl' by (apply Gl; simpl; discriminate).
         specialize (IH (S i) r0bl x' Ga Gl Gl').
         destruct (retry_err a b (sa, tra, Some (OErr x')) r0bl rem (S i) r0bl x') as [[i' p'] [[st' tr'] r']].
         exact IH.
-      * right. eexists; split; [reflexivity|exact Ga].
       * left. split; [reflexivity|]. eexists; split; [reflexivity|exact Ga].
-    + left. reflexivity.
-    + left. reflexivity.
     + right. split; [reflexivity|]. eexists; split; [reflexivity|exact Gb].
 Qed.
 
@@ -260,10 +254,8 @@ Lemma retry_a_done_good : forall n a b ns sa tr oa r0a r0bl rbe,
   good2 (Bin (BRetry n) a b) (retry_a_done n a b ns sa tr oa r0a r0bl rbe).
 Proof.
   intros n a b ns sa tr oa r0a r0bl rbe D Ga Gl Gb. unfold retry_a_done.
-  destruct oa as [v|x|].
-  - simpl. split; [exact D|apply done_fin].
-  - apply retry_node_good. apply retry_err_good; auto. eapply Gb; reflexivity.
-  - simpl. split; [exact D|apply done_fin].
+  destruct oa as [v|x| |v|v]; try (simpl; split; [exact D|apply done_fin]).
+  apply retry_node_good. apply retry_err_good; auto. eapply Gb; reflexivity.
 Qed.
 
 Lemma retry_b_done_good : forall n a b ns sb tr ob r0a r0bl,
@@ -271,12 +263,14 @@ Lemma retry_b_done_good : forall n a b ns sb tr ob r0a r0bl,
   good2 (Bin (BRetry n) a b) (retry_b_done n a b ns sb tr ob r0a r0bl).
 Proof.
   intros n a b ns sb tr ob [[sa tra] ra] r0bl Ga Gl. unfold retry_b_done.
-  destruct ob as [v|x|]; try (simpl; exact I).
-  destruct ra as [[v'|x'|]|]; simpl in Ga.
-  - simpl. split; [exact Ga|apply done_fin].
-  - apply retry_node_good. apply retry_err_good; auto. apply Gl. simpl. discriminate.
-  - simpl. split; [exact Ga|apply done_fin].
-  - simpl. auto.
+  destruct ob as [v|x| |v|v]; try (simpl; exact I);
+  (destruct ra as [[v'|x'| |v'|v']|]; simpl in Ga;
+   [ simpl; split; [exact Ga|apply done_fin]
+   | apply retry_node_good; apply retry_err_good; auto; apply Gl; simpl; discriminate
+   | simpl; split; [exact Ga|apply done_fin]
+   | simpl; split; [exact Ga|apply done_fin]
+   | simpl; split; [exact Ga|apply done_fin]
+   | simpl; auto ]).
 Qed.
 
 (* the shapes in which start / stop / leafev pass the pre-computed restarts to retry_when's helpers *)
@@ -295,6 +289,14 @@ Lemma retry_be_good : forall b oa en cx, (forall en cx, good2 b (start b en cx))
   good2 b (match oa with OErr e => start b (env_bind en e) cx | _ => (OFin, [], None) end).
 Proof. intros b oa en cx IH e ->. apply IH. Qed.
 
+(* [stage 4] did the child's result carry a value whose copy throws? *)
+Lemma thrown_none : forall (s : ost) (t : list tev), thrown (s, t, None) = None.
+Proof. reflexivity. Qed.
+
+Lemma thrown_some : forall (s : ost) (t : list tev) oc,
+  thrown (s, t, Some oc) = None \/ exists v, oc = OValT v /\ thrown (s, t, Some oc) = Some v.
+Proof. intros s t oc. destruct oc; simpl; auto. right. eexists; split; reflexivity. Qed.
+
 Arguments good2 e r : simpl never.
 
 (* ------------------------------------------------------------------------------------------------ *)
@@ -304,12 +306,15 @@ Arguments good2 e r : simpl never.
 (* keep the helper functions folded while the big matches are executed (made transparent again at
    the end of the section) *)
 Opaque conc_child_done un_result after_first after_second is_seq un_done seq_pass seq_final conc_reap
-       finish_conc rep_done retry_a_done retry_b_done un_own un_nst un_env fired res_err dtor.
+       finish_conc rep_done retry_a_done retry_b_done un_own un_nst un_env fired res_err dtor
+       thrown un_in bin_in tmode un_throw bin_throw un_catch bin_catch.
 
 (* the term the outermost match of [t] is blocked on *)
 Ltac head_scrut t :=
   lazymatch t with
   | fst ?y => head_scrut y
+  | conc_reap _ _ (match ?x with _ => _ end) => head_scrut x
+  | conc_reap _ _ (fst ?y) => head_scrut y
   | match ?x with _ => _ end => head_scrut x
   | _ => t
   end.
@@ -364,6 +369,12 @@ Ltac step_on x :=
       destruct E as (? & ? & E);
       match type of E with match ?f with _ => _ end => destruct f; try discriminate E end;
       clear E
+  | thrown (?s, ?t, None) => rewrite (thrown_none s t)
+  | thrown (?s, ?t, Some ?oc) =>
+      let E := fresh "E" in
+      destruct (thrown_some s t oc) as [E|(? & ? & E)]; [rewrite E|subst; rewrite E]
+  | un_throw _ => destruct x
+  | bin_throw _ _ => destruct x
   | after_first _ _ _ => destruct x as [?|[? ?]]
   | un_result _ _ => destruct x as [? ?]
   | own_stop _ => destruct x eqn:?
@@ -387,7 +398,7 @@ Ltac finish_good :=
     | apply seq_final_good; solve [auto]
     | apply retry_a_done_good;
         solve [auto | unfold good2; simpl; auto | apply retry_bl_good; auto | apply retry_bl_start_good; auto
-               | apply retry_be_good; auto]
+               | apply retry_be_good; auto | intros; discriminate]
     | apply retry_b_done_good; solve [auto | apply retry_bl_good; auto]
     | apply finish_conc_good;
         [ let X := fresh in intros X; first [ exfalso; apply X; reflexivity | split; solve [auto] ] | intros ?; try congruence; repeat (progress (simpl; rw_flags)); simpl; repeat split; auto ]
@@ -525,7 +536,7 @@ Proof.
       try (apply Nat.eqb_eq in E; subst; destruct o; simpl; intuition);
       apply Nat.eqb_neq in E; (split; [discriminate|]); intros [->|[]]; congruence.
   - destruct st as [| |ns sc sx| |]; try contradiction. destruct sx; try contradiction.
-    pose proof (IHs sc id0 o cx H) as Fs.
+    pose proof (IHs sc id0 (un_in k o) cx H) as Fs.
     pose proof (proj2 (proj2 (spec_all s))) as IH3. pose proof (proj1 (proj2 (spec_all s))) as IH2.
     pose proof (proj1 (spec_all s)) as IH1.
     repeat hstep; finish_hit.
@@ -536,13 +547,13 @@ Proof.
     pose proof (proj1 (spec_all b)) as IHb1.
     destruct (is_seq k) eqn:Hk.
     + destruct (ph ns) eqn:P0; try contradiction; destruct H as (Ha & Hb); subst.
-      * pose proof (IHa sa id0 o cx Ha) as Fa. repeat hstep; finish_hit.
-      * pose proof (IHb sb id0 o cx Hb) as Fb. repeat hstep; finish_hit.
+      * pose proof (IHa sa id0 (bin_in k false o) cx Ha) as Fa. repeat hstep; finish_hit.
+      * pose proof (IHb sb id0 (bin_in k true o) cx Hb) as Fb. repeat hstep; finish_hit.
     + destruct H as (Ha & Hb & Hab).
       destruct (adone ns) eqn:A0; destruct (bdone ns) eqn:B0; simpl in Hab; try discriminate; subst.
-      * pose proof (IHb sb id0 o cx Hb) as Fb. repeat hstep; finish_hit.
-      * pose proof (IHa sa id0 o cx Ha) as Fa. repeat hstep; finish_hit.
-      * pose proof (IHa sa id0 o cx Ha) as Fa. pose proof (IHb sb id0 o cx Hb) as Fb.
+      * pose proof (IHb sb id0 (tmode o) cx Hb) as Fb. repeat hstep; finish_hit.
+      * pose proof (IHa sa id0 (tmode o) cx Ha) as Fa. repeat hstep; finish_hit.
+      * pose proof (IHa sa id0 (tmode o) cx Ha) as Fa. pose proof (IHb sb id0 (tmode o) cx Hb) as Fb.
         repeat hstep; finish_hit.
 Qed.
 
@@ -569,7 +580,8 @@ Example hit_may_hold :
 Proof. vm_compute. split; reflexivity. Qed.
 
 Transparent conc_child_done un_result after_first after_second is_seq un_done seq_pass seq_final conc_reap
-       finish_conc rep_done retry_a_done retry_b_done un_own un_nst un_env fired res_err dtor.
+       finish_conc rep_done retry_a_done retry_b_done un_own un_nst un_env fired res_err dtor
+       thrown un_in bin_in tmode un_throw bin_throw un_catch bin_catch.
 Arguments good2 e r : simpl nomatch.
 
 (* no lost completion, state level: a live operation waits for something that can still happen *)
